@@ -162,6 +162,9 @@ pub struct FaultDb {
     touched: Mutex<BTreeMap<Key, u32>>,
     armed: AtomicBool,
     pub faults_fired: AtomicU64,
+    /// Index of the transaction the (in-order) caller is executing; keys are logged against it.
+    marker: std::sync::atomic::AtomicUsize,
+    by_marker: Mutex<Vec<(usize, Key)>>,
 }
 
 impl FaultDb {
@@ -173,12 +176,23 @@ impl FaultDb {
             touched: Mutex::new(BTreeMap::new()),
             armed: AtomicBool::new(true),
             faults_fired: AtomicU64::new(0),
+            marker: std::sync::atomic::AtomicUsize::new(usize::MAX),
+            by_marker: Mutex::new(Vec::new()),
         }
     }
 
     /// Stop injecting faults and latency (used for read-back after the run).
     pub fn disarm(&self) {
         self.armed.store(false, Ordering::SeqCst);
+    }
+
+    pub fn set_marker(&self, i: usize) {
+        self.marker.store(i, Ordering::SeqCst);
+    }
+
+    /// `(marker, key)` for every access made while a marker was set.
+    pub fn touched_by_marker(&self) -> Vec<(usize, Key)> {
+        self.by_marker.lock().clone()
     }
 
     pub fn touched(&self) -> BTreeMap<Key, u32> {
@@ -190,6 +204,10 @@ impl FaultDb {
             return Ok(());
         }
         *self.touched.lock().entry(key.clone()).or_insert(0) += 1;
+        let m = self.marker.load(Ordering::SeqCst);
+        if m != usize::MAX {
+            self.by_marker.lock().push((m, key.clone()));
+        }
         let lat = self.plan.latency_us.get(&key).copied().unwrap_or(self.plan.default_latency_us);
         if lat > 0 {
             IN_DB_DELAY.fetch_add(1, Ordering::SeqCst);
